@@ -412,6 +412,7 @@ func (r *foRun) oracleC04() {
 	lastStore := map[string]*beCall{}
 	newest := map[string]*beCall{} // per key: the successful store whose value has the latest origin
 	unknown := map[string]bool{}
+	rollback := map[string]*beCall{} // per key: the first store that put something older over the newest result
 
 	for _, c := range r.calls {
 		if c.kind != "write" || c.err != nil {
@@ -419,7 +420,8 @@ func (r *foRun) oracleC04() {
 		}
 
 		og, ok := origin[c.val]
-		if !ok {
+		if t, isTok := c.val.(Tok); !ok || (isTok && t.ID == nilID) {
+			// (nil results of different builds are one and the same token: no origin)
 			unknown[c.key] = true
 
 			continue
@@ -429,6 +431,9 @@ func (r *foRun) oracleC04() {
 
 		if n := newest[c.key]; n == nil || og > origin[n.val] {
 			newest[c.key] = c
+			rollback[c.key] = nil
+		} else if og < origin[newest[c.key].val] && rollback[c.key] == nil {
+			rollback[c.key] = c // the first store of something older over the newest result
 		}
 	}
 
@@ -444,14 +449,15 @@ func (r *foRun) oracleC04() {
 
 		out.probe("last_store_judged")
 
-		if origin[l.val] < origin[n.val] {
-			// how did it come about? The overwriting store is classified by what its task knew: its last backend
+		if rb := rollback[k]; origin[l.val] < origin[n.val] && rb != nil {
+			// How did it come about? What counts is the store that rolled the result back (later stores may merely
+			// refresh the rolled-back value again). It is classified by what its task knew: its last backend
 			// read of the key, before or after the newer value was stored, and whether it stored a value that
 			// already existed when it read (a refresh of what it had read) or something it built afterwards.
 			var rd *beCall
 
 			for _, c := range r.calls {
-				if c.kind == "read" && c.key == k && c.task == l.task && c.seq < l.seq {
+				if c.kind == "read" && c.key == k && c.task == rb.task && c.seq < rb.seq {
 					rd = c
 				}
 			}
@@ -459,19 +465,20 @@ func (r *foRun) oracleC04() {
 			by, read := "own-build", "none"
 
 			if rd != nil {
+				// (a read that was invoked before the newer store had returned may legitimately have seen the older value)
 				read = "after-newer-store"
-				if rd.seq < n.seq {
+				if rd.seq < n.retSeq {
 					read = "before-newer-store"
 				}
 
-				if origin[l.val] < rd.seq {
+				if origin[rb.val] < rd.seq {
 					by = "refresh-of-value-read"
 				}
 			}
 
 			out.violate("C04.R7", fmt.Sprintf("completed-build-rolled-back by=%s read=%s syncRead=%v", by, read, r.sc.Cfg.SyncRead),
 				"key %q: %v (build finished at seq %d) was stored at seq %d, afterwards, at seq %d, %v (origin seq %d: an older build, or the value cached before any build) was stored over it by task %s; everything has finished and a later Get observes %v, not the result of the last completed build",
-				k, n.val, origin[n.val], n.seq, l.seq, l.val, origin[l.val], l.task, l.val)
+				k, n.val, origin[n.val], n.seq, rb.seq, rb.val, origin[rb.val], rb.task, l.val)
 		}
 	}
 
